@@ -149,8 +149,11 @@ func NewPQIndex(dim int, distanceKind DistanceKind, M int, Nbits int) (*PQIndex,
 	}
 
 	// Validate Nbits
-	if Nbits <= 0 || Nbits > 16 {
-		return nil, fmt.Errorf("parameter Nbits must be in [1,16]")
+	// Codes are stored one byte per subspace ([]uint8), so at most 2^8 centroids
+	// per subspace can be addressed; a larger Nbits would silently truncate the
+	// centroid index when encoding.
+	if Nbits <= 0 || Nbits > 8 {
+		return nil, fmt.Errorf("parameter Nbits must be in [1,8]")
 	}
 
 	// Create distance calculator
